@@ -3,7 +3,7 @@ from .common import AnalysisError, Report
 from . import cxx
 from .cxx import int_type
 from .gnf import Canon, Poly
-from .ir import E, walk_stmts, walk_expr, all_exprs, stmt_exprs, show
+from .ir import E, S, walk_stmts, walk_expr, all_exprs, stmt_exprs, show
 from .paths import Engine, Rule, path_of
 from .rules_C08 import null_test
 
@@ -265,6 +265,19 @@ def run(cfg):
     return R
 
 
+def _strip_breaks(blk):
+    """the statements of a switch arm without its trailing break (the path engine expects break inside a loop or switch)."""
+    out = []
+    for s in blk:
+        if s.k == 'break':
+            break
+        if s.k == 'block':
+            out.append(S('block', _strip_breaks(s.a[0]), loc=s.loc))
+        else:
+            out.append(s)
+    return out
+
+
 def period_rules(R, lib, f, arms, now_var, ob):
     def elapsed_of(blk, field):
         """variable defined as now - field, or the expression itself."""
@@ -319,6 +332,29 @@ def period_rules(R, lib, f, arms, now_var, ob):
                             ok = v.k == 'bin' and v.a[0] == '-' and path_of(v.a[1]) == now_var and path_of(v.a[2]) == 'this.mRequestStartMillis'
                     why = 'the timeout is not measured from mRequestStartMillis'
     ob('R5', '%s::loop:kStatusSent:timeout' % SCL, f.loc, ok, why)
+    # the response is looked at before the timeout decides: a request is only given up on a path where
+    # isResponseReady() has answered
+    c = '%s::loop:kStatusSent:response-before-timeout' % SCL
+    byname = {q.split('::')[-1]: lib.const(q) for q in lib.globals if q.startswith(SCL + '::kStatus')}
+
+    class RF(Rule):
+        def initial(self_):
+            return ['unasked']
+
+        def event(self_, e, st, tr):
+            if e.k == 'call' and e.a[0].endswith('::isResponseReady'):
+                return 'asked'
+            return st
+
+        def assign(self_, s, st, tr):
+            if s.k == 'assign' and path_of(s.a[0]) == 'this.mRequestStatus' and status_value(lib, s.a[1]) == byname.get('kStatusWaitForRetry'):
+                R.instance('R5', c, s.loc)
+                if st == 'unasked':
+                    R.violation('R5', c, s.loc, 'the request is given up (kStatusWaitForRetry) on a path that never asked isResponseReady(): a response that is '
+                                'ready when loop() next runs at or after the timeout is thrown away instead of being applied', detail=list(tr))
+            return st
+    if blk:
+        Engine(RF()).run(_strip_breaks(blk))
     # back-off
     blk = arms.get('kStatusWaitForRetry', [])
     ok, why = False, 'back-off shape not recognised'
@@ -434,6 +470,10 @@ def fsm_typestate(R, lib, f, arms, consts, byval, trans, ob):
 
 
 SELFTEST = [
+    dict(id='timeout-decides-before-response', file='src/ace_time/clock/SystemClockLoop.h', regex=True,
+         find=r'        case kStatusSent:\n          if \(mReferenceClock->isResponseReady\(\)\) \{\n(.*?)          \} else \{\n            unsigned long waitMillis = nowMillis - mRequestStartMillis;\n            if \(waitMillis >= mRequestTimeoutMillis\) \{\n              mRequestStatus = kStatusWaitForRetry;\n            \}\n          \}\n          break;',
+         replace=r'        case kStatusSent: {\n          unsigned long waitMillis = nowMillis - mRequestStartMillis;\n          if (waitMillis >= mRequestTimeoutMillis) {\n            mRequestStatus = kStatusWaitForRetry;\n          } else if (mReferenceClock->isResponseReady()) {\n\1          }\n          break;\n        }',
+         rule='R5', construct='response-before-timeout'),
     dict(id='arm-deleted', file='src/ace_time/clock/SystemClockLoop.h', regex=True,
          find=r'        case kStatusOk: \{\n          unsigned long millisSinceLastSync = nowMillis - mLastSyncMillis;\n          if \(millisSinceLastSync >= mCurrentSyncPeriodSeconds \* 1000UL\) \{\n            mRequestStatus = kStatusReady;\n          \}\n          break;\n        \}\n',
          replace='', rule='R'),
